@@ -356,6 +356,9 @@ func (x *Exec) iteV(c *Term, a, bb Value) Value {
 			if q.Obj == nil {
 				return &SliceV{Obj: p.Obj, Path: p.Path, Off: b.Ite(c, p.Off, q.Off), Len: b.Ite(c, p.Len, q.Len), Cap: b.Ite(c, p.Cap, q.Cap)}
 			}
+			if debugIf {
+				panic("merge of slices over different objects")
+			}
 			unsupported("merge of slices over different objects")
 		}
 		return &SliceV{Obj: p.Obj, Path: p.Path, Off: b.Ite(c, p.Off, q.Off), Len: b.Ite(c, p.Len, q.Len), Cap: b.Ite(c, p.Cap, q.Cap)}
